@@ -324,6 +324,30 @@ fn run_workload(case: &CCase, _p: &Params, data: &Path, rec: &Arc<Mutex<Recorder
     Ok((model, stored))
 }
 
+/// true if some segment's index holds more complete entries than its log holds complete batches
+/// (under no-wait confirmation the index entry is written before the batch: KF-C04-3)
+fn index_ahead_of_log(dir: &Path) -> bool {
+    for f in list_files(dir) {
+        if f.extension().map(|e| e == "index").unwrap_or(false) {
+            let entries = std::fs::metadata(&f).map(|m| m.len() / 16).unwrap_or(0);
+            let log = std::fs::read(f.with_extension("log")).unwrap_or_default();
+            let (mut at, mut batches) = (0usize, 0u64);
+            while at + 24 <= log.len() {
+                let len = u32::from_le_bytes(log[at + 8..at + 12].try_into().unwrap()) as usize;
+                if at + 24 + len > log.len() {
+                    break;
+                }
+                at += 24 + len;
+                batches += 1;
+            }
+            if entries > batches {
+                return true;
+            }
+        }
+    }
+    false
+}
+
 fn recover(p: &Params, case: &CCase, im: &Image, torn_to: Option<u64>, scratch: &Path, model: &Model, stored: &[Vec<(u8, u64)>], out: &mut Outcome) -> Check {
     let _ = std::fs::remove_dir_all(scratch);
     copy_dir(&im.dir, scratch).map_err(|e| Failure::new("C04", "harness-io", e.to_string()))?;
@@ -348,8 +372,20 @@ fn recover(p: &Params, case: &CCase, im: &Image, torn_to: Option<u64>, scratch: 
         out.nontrivial = true;
         out.label("image-with-empty-fresh-segment");
     }
+    // the two crash windows of the open findings, recognised on the image itself
+    let unindexed_tail = im.kind.starts_with("log_append") || (torn_to.is_some() && (im.kind == "index_append" || im.kind.starts_with("log_append")));
+    let index_ahead = index_ahead_of_log(scratch);
+    if index_ahead {
+        out.label("image-index-ahead-of-log");
+    }
     let tags = |f: Failure| {
         let mut f = f.tag(format!("event:{}", im.kind));
+        if unindexed_tail {
+            f = f.tag("unindexed-tail");
+        }
+        if index_ahead {
+            f = f.tag("index-ahead-of-log");
+        }
         if matches!(case.ops.get(im.op), Some(WOp::PurgeTopic)) {
             f = f.tag("in-purge");
         }
@@ -384,7 +420,7 @@ fn recover(p: &Params, case: &CCase, im: &Image, torn_to: Option<u64>, scratch: 
         // batch reaches the log in the background: a crash in between leaves an index that is ahead of
         // the log (served content is then not a prefix, later offsets leave a hole). Masked: under
         // no-wait only "start-up succeeds, nothing panics" is demanded.
-        if case.cfg.no_wait && p.masked("KF-C04-3") {
+        if case.cfg.no_wait && index_ahead && p.masked("KF-C04-3") {
             out.exclude("KF-C04-3");
             let _ = node.block_on(async { cl.shutdown().await });
             return Ok(());
@@ -457,7 +493,6 @@ fn recover(p: &Params, case: &CCase, im: &Image, torn_to: Option<u64>, scratch: 
             }
             // known findings (masked = the post-recovery-send clauses are skipped for exactly these images):
             // KF-C04-1: a log batch without a (complete) index entry is neither dropped nor re-indexed at start-up
-            let unindexed_tail = im.kind.starts_with("log_append") || (torn_to.is_some() && (im.kind == "index_append" || im.kind.starts_with("log_append")));
             if unindexed_tail && p.masked("KF-C04-1") {
                 out.exclude("KF-C04-1");
                 continue;
